@@ -91,17 +91,17 @@ def run(tier, seed):
             if len(samples) < 2:
                 samples.append({"spec": [(e["p"], e["k"], e.get("to")) for e in spec], "j": j})
         # natural fault: the first copy of a group cannot be created (its parent is a regular file in the destination)
-        nf = 3 if tier == "quick" else 30
+        nf = 8 if tier == "quick" else 60
         hangs = 0
         for i in range(nf):
             base = os.path.join(sc.dir, "f%d" % i)
             src, dst = base + "/src", base + "/dst"
-            names = ["blocked/x.dat", "blocked/y.dat", "blocked2/z.dat"]
+            names = ["blocked/x.dat", "blocked/y.dat", "blocked2/z.dat"] if i % 2 == 0 else ["blocked/x.dat", "ok/y.dat", "ok/z.dat", "ok/w.dat"]
             r.shuffle(names)
             spec = [{"p": names[0], "k": "f", "data": ("rand", i, 2000), "mt": 10}] + [{"p": p, "k": "h", "to": names[0]} for p in names[1:]]
             world.mk_tree(src, spec)
             world.mk_tree(dst, [{"p": "blocked", "k": "f", "data": b"i am a file", "mt": 5}, {"p": "blocked2", "k": "f", "data": b"me too", "mt": 5}])
-            rr = world.run_sy([src, dst, "-H", "-j4", "-q"], sc, timeout=8)
+            rr = world.run_sy([src, dst, "-H", "-j%d" % r.choice([1, 2, 4, 8]), "-q"], sc, timeout=8)
             if rr["timeout"]:
                 hangs += 1
                 f = {"world": "fault%d" % i, "why": "first copy of the link group failed and sy -H hung (killed after 8 s)", "klass": "owner-failure-hang"}
@@ -113,14 +113,20 @@ def run(tier, seed):
                 d_snap = world.snapshot(dst)
                 ok_members = [p for p in names if p.startswith("ok/")]
                 inos = set(d_snap[p]["ino"] for p in ok_members if p in d_snap)
+                s_snap = world.snapshot(src)
+                missing = [p for p in ok_members if p not in d_snap or d_snap[p].get("sha") != s_snap[p]["sha"]]
                 if len(inos) > 1:
                     viol.append({"world": "fault%d" % i, "why": "surviving members of the group do not share an inode", "klass": None})
+                if missing:
+                    viol.append({"world": "fault%d" % i, "why": "members that could be created are missing or wrong after the first copy of their group failed: %r" % missing, "klass": None})
+                if rr["rc"] == 0:
+                    viol.append({"world": "fault%d" % i, "why": "exit status 0 although members of the group could not be created", "klass": None})
     # model-level exploration statistics (kernel-evaluated), recorded as support
     stats = vlib.coq_eval_list("From Coq Require Import List. Import ListNotations.\nFrom SyModel Require Import Hardlink.",
-                               "List.map (fun n => length (fst (explore 200000 true false [] [init n]))) [1;2;3;4]", tag="c13")
+                               "List.map (fun n => length (fst (explore 400000 false true [] [init n]))) [1;2;3]", tag="c13")
     res.cov["evaluations"] = n * 3 + nf
     res.cov["distinct_nontrivial"] = len(nontriv)
-    res.cov["model_reachable_states_n1_to_4"] = stats
+    res.cov["model_reachable_states_n1_to_3_with_faults_and_gap"] = stats
     res.cov["fault_runs"] = nf
     res.cov["fault_runs_hung"] = hangs
     res.cov["known_finding_hits"] = {k: len(v) for k, v in hits.items()}
@@ -134,8 +140,8 @@ def run(tier, seed):
         h = hits.get(f["id"], [])
         if h:
             res.known.append("%s %s [%d cases this run]" % (f["id"], f["what"], len(h)))
-        elif cls == "lost-wakeup":
-            res.notes.append("C13-KF2 (lost wake-up) is a model-level finding (theorem C13_lost_wakeup_deadlock); not reproducible end to end without schedule points")
+        else:
+            res.notes.append("listed finding %s was not reproduced by this run" % f["id"])
     viol = [v for v in viol if not (v.get("klass") in known)]
     for v in viol[:3]:
         res.violation("world", v)
